@@ -267,7 +267,7 @@ def native_replay(h, wd, vals, tag):
     rv = os.path.join(wd, 'replay_values_%s.h' % tag); write_replay_values(vals, rv)
     exe = os.path.join(wd, 'replay_%s' % tag)
     hsrc = os.path.join(VERIF, 'harness', h.pid, h.file)
-    cmd = ['gcc', '-O0', '-g', '-w', '-fno-builtin', '-DNATIVE_REPLAY', '-DREPLAY_VALUES="%s"' % rv, '-I', wd, '-I', TOOLS, '-I', os.path.join(VERIF, 'harness', 'common'),
+    cmd = ['gcc', '-O0', '-g', '-w', '-fno-builtin-malloc -fno-builtin-free -fno-builtin-calloc -fno-builtin-strlen -fno-builtin-strdup -fno-builtin-memcmp', '-DNATIVE_REPLAY', '-DREPLAY_VALUES="%s"' % rv, '-I', wd, '-I', TOOLS, '-I', os.path.join(VERIF, 'harness', 'common'),
            '-I', os.path.join(VERIF, 'harness', h.pid)] + [d if d.startswith('-D') else '-D' + d for d in h.defines] + (['-DIR_WEAK_CAS_MAY_FAIL'] if h.weak_cas else []) + \
           ['-x', 'c', hsrc, '-o', exe]
     r = subprocess.run(cmd, stdout=subprocess.PIPE, stderr=subprocess.STDOUT, text=True)
@@ -278,7 +278,7 @@ def native_replay(h, wd, vals, tag):
 def native_build(pid, file, wd, defines, out):
     """compile harness+model natively (same generated C that cbmc sees)"""
     hsrc = os.path.join(VERIF, 'harness', pid, file)
-    cmd = ['gcc', '-O0', '-g', '-w', '-fno-builtin', '-DNATIVE_REPLAY', '-I', wd, '-I', TOOLS, '-I', os.path.join(VERIF, 'harness', 'common'), '-I', os.path.join(VERIF, 'harness', pid)] + \
+    cmd = ['gcc', '-O0', '-g', '-w', '-fno-builtin-malloc -fno-builtin-free -fno-builtin-calloc -fno-builtin-strlen -fno-builtin-strdup -fno-builtin-memcmp', '-DNATIVE_REPLAY', '-I', wd, '-I', TOOLS, '-I', os.path.join(VERIF, 'harness', 'common'), '-I', os.path.join(VERIF, 'harness', pid)] + \
           list(defines) + ['-x', 'c', hsrc, '-o', out]
     r = subprocess.run(cmd, stdout=subprocess.PIPE, stderr=subprocess.STDOUT, text=True)
     if r.returncode != 0: raise RuntimeError('native build of the model failed:\n' + r.stdout[-2000:])
@@ -365,6 +365,10 @@ def run_harness(h, tier, outdir):
                 if bad: res['error'] = 'vacuous: witness not reachable: %s' % bad
         res['last_out'] = r['out']
     # expected failures (documented, e.g. a harness half that demonstrates a known finding)
+    harness_faults = [f for f in res['failures'] if f['desc'].startswith(('unwinding assertion', 'no body for callee', 'harness bound', 'layout guard', 'recursion'))]
+    if harness_faults:
+        res['status'] = 'broken'; res['error'] = 'harness fault (bound too small / missing stub): %s' % sorted(set(f['desc'] for f in harness_faults))[:4]
+        res.pop('last_out', None); res['wall_s'] = round(time.time() - t0, 2); return res
     if res['failures']:
         res['status'] = 'violation'
         out = res.get('last_out', '')
